@@ -54,6 +54,7 @@ impl Check for Simple {
             (self.gen)(rng, tier, job)
         };
         ctx.eval(&plan);
+        tcp_share(&plan, job, ctx);
     }
     fn owns(&self, rule: &str) -> bool {
         self.owns.contains(&rule)
@@ -684,6 +685,24 @@ pub fn c02() -> Simple {
         gen: gen_c02,
         extra: None,
         assumptions: COMMON_ASSUME,
+    }
+}
+
+/// One job in 300 also serves its conversation through `run_on_tcp` over a real loopback socket
+/// and compares with the simulated run (rule `tcp-differs`, see tcpdiff.rs): the TCP entry
+/// point is the one piece of the library the simulated transport cannot be plugged into.
+pub fn tcp_share(plan: &Plan, job: u64, ctx: &mut JobCtx<'_>) {
+    if job % 300 != 123 {
+        return;
+    }
+    tcp_always(plan, ctx)
+}
+
+pub fn tcp_always(plan: &Plan, ctx: &mut JobCtx<'_>) {
+    let p2 = crate::tcpdiff::normalise(plan);
+    if crate::tcpdiff::eligible(&p2) {
+        ctx.stats.bump("probe.tcp_loopback_conversations", 1);
+        ctx.eval(&p2);
     }
 }
 
